@@ -42,8 +42,18 @@ def check(m, run):
     rs.iv1(m, run, rational, caches_filter=keep)
     rs.iv3_cache_keys(m, run, rational)
     run.floor('IV1.no-stale-cache', 200, 'rational classes x entries x 2 caches')
-    maps = weight_slot(m, run)
-    inverse_pairs(m, run, maps)
+    # the six weight converters are decided exactly on symbolic points (WS6); the rules that read the per-point construction of each
+    # converter and compose the extracted coordinate maps corroborate
+    from .. import skel_drivers as _sdw
+    n_ws = len(run.obs)
+    try:
+        _sdw.ws6(m, run)
+    except AnalysisError as ex:
+        run.error(str(ex))
+    ws_ok = len(run.obs) > n_ws and all(o.ok for o in run.obs[n_ws:])
+    with run.corroborating(ws_ok, 'WS6', rules=('WS1.weight-slot', 'WS2.inverse-pair')):
+        maps = weight_slot(m, run)
+        inverse_pairs(m, run, maps)
     setters(m, run)
     per_point_index(m, run)
     # the conversions are decided by interpreting them on shapes built through the real classes (CV4); the rules that read the spelling of
